@@ -106,6 +106,44 @@ func HarnessC10PluginHandler() {
 	vrt.Observe("handled", handled)
 }
 
+type c10FlakySubscriber struct {
+	countingSubscriber
+	failed bool
+}
+
+func (s *c10FlakySubscriber) Subscribe(ctx context.Context, topic string) (<-chan *Message, error) {
+	if !s.failed {
+		s.failed = true
+		return nil, errScripted // a transient fault
+	}
+	return s.countingSubscriber.Subscribe(ctx, topic)
+}
+
+// HarnessC10SubscribeFailsOnce: the handler's Subscribe fails the first time; RunHandlers reports it and is called
+// again: the handler is then started exactly once and the whole life cycle (message, Stop, Stopped, router Close)
+// is the ordinary one.
+func HarnessC10SubscribeFailsOnce() {
+	r, _ := NewRouter(RouterConfig{}, watermill.NopLogger{})
+	r.isRunning = true
+	sub := &c10FlakySubscriber{}
+	handled := 0
+	h := r.AddNoPublisherHandler("A", "ta", sub, func(m *Message) error { handled++; return nil })
+	ctx, cancel := context.WithCancel(context.Background())
+	defer cancel()
+	vrt.Assert(r.RunHandlers(ctx) != nil, "RunHandlers reports the Subscribe error")
+	vrt.Assert(r.RunHandlers(ctx) == nil, "the retried RunHandlers starts the handler")
+	<-h.Started()
+	vrt.Assert(sub.subscribes == 1, "the handler holds exactly one subscription")
+	m := NewMessage("m", nil)
+	sub.chans[0] <- m
+	<-m.Acked()
+	h.Stop()
+	<-h.Stopped()
+	vrt.Assert(handled == 1, "handled once")
+	_ = r.Close() // returns (nil, or the timeout error when the CloseTimeout timer wins against the waiter goroutine)
+	vrt.Assert(r.IsClosed(), "closed")
+}
+
 // HarnessC10StopOne: Stop ends that handler only; a handler with a different publisher keeps processing.
 func HarnessC10StopOne() {
 	r, _ := NewRouter(RouterConfig{}, watermill.NopLogger{})
